@@ -498,7 +498,43 @@ func (fr *Frame) applyContract(spec *FuncSpec, cc *ssa.CallCommon, st *State, po
 		}
 		vc.assumeIf(fr.curReach, g)
 	}
+	for _, el := range spec.Elems {
+		ctx := mk(st.clone())
+		ch, err := ctx.eval(el.Chan)
+		if err != nil {
+			vc.unsupportedf("elem clause of %s: %v", spec.Key, err)
+			continue
+		}
+		top := vc.topFrame
+		if top == nil {
+			top = fr
+		}
+		top.chanFacts = append(top.chanFacts, &chanFact{ch: ch.S, ctx: ctx, v: el.Var, body: el.Clause.E, text: el.Clause.Text})
+	}
 	return res
+}
+
+// instantiateChanFacts assumes the recorded per-element facts for element `pos` of channel c.
+func (fr *Frame) instantiateChanFacts(c Term, pos string, guard string) {
+	vc := fr.vc
+	top := vc.topFrame
+	if top == nil {
+		top = fr
+	}
+	for _, cf := range top.chanFacts {
+		c2 := *cf.ctx
+		c2.env = map[string]Term{}
+		for k, v := range cf.ctx.env {
+			c2.env[k] = v
+		}
+		c2.env[cf.v] = Term{pos, "Int", types.Typ[types.Int]}
+		g, err := c2.evalBool(cf.body)
+		if err != nil {
+			vc.unsupportedf("elem clause %q: %v", cf.text, err)
+			continue
+		}
+		vc.assumeIf(and(fr.curReach, guard, fmt.Sprintf("(= %s %s)", c.S, cf.ch)), g)
+	}
 }
 
 func intersectOrAll(tags, own []string) []string {
@@ -596,6 +632,11 @@ func (fr *Frame) atCallAsserts(key string, cc *ssa.CallCommon, st *State, pos to
 			continue
 		}
 		ctx := fr.specCtx(st, fr.entry, fr.curBlock, fr.curIdx)
+		for i, a := range cc.Args {
+			t := fr.argTerm(a)
+			t.T = a.Type()
+			ctx.env[fmt.Sprintf("$arg%d", i)] = t
+		}
 		g, err := ctx.evalBool(at.Clause.E)
 		if err != nil {
 			vc.unsupportedf("at call %s: %v", at.Callee, err)
